@@ -193,25 +193,16 @@ func diagnosticsMismatch(out, uri, text string) string {
 	if err := json.Unmarshal([]byte(fr[0]), &m); err != nil || m.Method != "textDocument/publishDiagnostics" || m.Params.URI != uri {
 		return "didOpen did not publish diagnostics for the opened URI: " + trunc(fr[0], 200)
 	}
-	lines := strings.Split(text, "\n")
-	units := func(line, char int) int {
-		if line < 0 || line >= len(lines) {
-			return char
-		}
-		rs := []rune(lines[line])
-		n := char
-		for i := 0; i < char && i < len(rs); i++ {
-			n += utf16.RuneLen(rs[i]) - 1
-		}
-		return n
-	}
+	_, conv := lspModel(text)
 	var got, want []string
 	for _, d := range m.Params.Diagnostics {
 		got = append(got, fmt.Sprintf("%d:%d-%d:%d|%d|%s", d.Range.Start.Line, d.Range.Start.Character, d.Range.End.Line, d.Range.End.Character, d.Severity, d.Message))
 	}
 	for _, d := range analysis.CheckSource(text).Diagnostics {
 		r := d.Range
-		want = append(want, fmt.Sprintf("%d:%d-%d:%d|%d|%s", r.Start.Line, units(r.Start.Line, r.Start.Character), r.End.Line, units(r.End.Line, r.End.Character), int(d.Kind.Severity()), d.Kind.Message()))
+		sl, sc := conv(r.Start.Line, r.Start.Character)
+		el, ec := conv(r.End.Line, r.End.Character)
+		want = append(want, fmt.Sprintf("%d:%d-%d:%d|%d|%s", sl, sc, el, ec, int(d.Kind.Severity()), d.Kind.Message()))
 	}
 	sort.Strings(got)
 	sort.Strings(want)
@@ -219,6 +210,56 @@ func diagnosticsMismatch(out, uri, text string) string {
 		return fmt.Sprintf("published diagnostics %q differ from the analysis of the same text %q", got, want)
 	}
 	return ""
+}
+
+// lspModel converts positions of the parser's model (lines end at \n, characters) into LSP positions
+// (lines end at \r\n, \n or a lone \r; UTF-16 code units) for one text, and lists the LSP lines.
+func lspModel(text string) (lines []string, conv func(line, char int) (int, int)) {
+	rs := []rune(text)
+	nlStart, lspStart := []int{0}, []int{0}
+	lineFrom := 0
+	for i := 0; i < len(rs); i++ {
+		switch {
+		case rs[i] == '\n':
+			nlStart = append(nlStart, i+1)
+			lines = append(lines, string(rs[lineFrom:i]))
+			lineFrom = i + 1
+			lspStart = append(lspStart, i+1)
+		case rs[i] == '\r' && i+1 < len(rs) && rs[i+1] == '\n':
+			nlStart = append(nlStart, i+2)
+			lines = append(lines, string(rs[lineFrom:i]))
+			lineFrom = i + 2
+			lspStart = append(lspStart, i+2)
+			i++
+		case rs[i] == '\r':
+			lines = append(lines, string(rs[lineFrom:i]))
+			lineFrom = i + 1
+			lspStart = append(lspStart, i+1)
+		}
+	}
+	lines = append(lines, string(rs[lineFrom:]))
+	conv = func(line, char int) (int, int) {
+		if line < 0 || line >= len(nlStart) {
+			return line, char
+		}
+		// a position k characters past the end of its line stays k past the end of that line
+		end := len(rs)
+		if line+1 < len(nlStart) {
+			end = nlStart[line+1] - 1
+		}
+		off := nlStart[line] + char
+		over := 0
+		if off > end {
+			over, off = off-end, end
+		}
+		ln := sort.SearchInts(lspStart, off+1) - 1
+		n := 0
+		for i := lspStart[ln]; i < off; i++ {
+			n += utf16.RuneLen(rs[i])
+		}
+		return ln, n + over
+	}
+	return lines, conv
 }
 
 func positionsOf(text string) [][2]int {
@@ -594,7 +635,7 @@ func runC19(w *mc.Worker) {
 		}
 		w.Outer("navigation-scoping/script", 0, func(o *mc.Explorer) {
 			pi := o.Choose(len(progs))
-			lay := o.Choose(5)
+			lay := o.Choose(7)
 			if !w.Mine(fmt.Sprint("scoping", pi, lay)) {
 				return
 			}
@@ -611,7 +652,7 @@ func runC19(w *mc.Worker) {
 			})
 		})
 	})
-	navStage(fmt.Sprintf("navigation-layouts-v%d", weight-1), weight-1, []int{1, 2}, "2 layouts with one token per line (indentation falling / rising, so that earlier tokens start right / left of later ones)")
+	navStage(fmt.Sprintf("navigation-layouts-v%d", weight-1), weight-1, []int{1, 2, 5, 6}, "4 layouts with one token per line (indentation falling / rising, so that earlier tokens start right / left of later ones; lines ending in CR LF; lines ending in a lone CR)")
 }
 
 // navLayout: the separators of one of the navigation layouts (0 one line, 1 / 2 one token per line with
@@ -639,6 +680,16 @@ func navLayout(pr *gen.Printed, layout int) []string {
 				seps[i] = "\n"
 			}
 		}
+	case 5, 6: // one token per line ending in CR LF (5) or in a lone CR (6), indentation rising
+		eol := "\r\n"
+		if layout == 6 {
+			eol = "\r"
+		}
+		for i := 1; i < n; i++ {
+			seps[i] = eol + strings.Repeat(" ", 2*(i%3))
+		}
+		seps[n] = eol
+		return seps
 	case 2: // one token per line, indentation rising 0,2,4,0,2,4,...
 		for i := 1; i < n; i++ {
 			seps[i] = "\n" + strings.Repeat(" ", 2*(i%3))
@@ -748,19 +799,13 @@ func navCheck(w *mc.Worker, prog *gen.Program, pr *gen.Printed, text string, sta
 		}
 	}
 	bad, clause := "", ""
-	lines := strings.Split(text, "\n")
-	// LSP positions count UTF-16 code units (the protocol's default encoding; the server announces no
-	// other): the printer's character columns are converted, line by line
+	// LSP positions: lines end at \r\n, \n or a lone \r; characters count UTF-16 code units (the
+	// protocol's default encoding; the server announces no other). The printer's positions (lines
+	// ending at \n, characters) are converted through offsets into the text.
+	lines, conv := lspModel(text)
 	units := func(p gen.Pos) gen.Pos {
-		rs := []rune(lines[p.Line])
-		n := 0
-		for i := 0; i < p.Char && i < len(rs); i++ {
-			n += utf16.RuneLen(rs[i])
-		}
-		if p.Char > len(rs) {
-			n += p.Char - len(rs)
-		}
-		return gen.Pos{Line: p.Line, Char: n}
+		l, c := conv(p.Line, p.Char)
+		return gen.Pos{Line: l, Char: c}
 	}
 	starts, ends = append([]gen.Pos{}, starts...), append([]gen.Pos{}, ends...)
 	for i := range starts {
